@@ -82,3 +82,14 @@ type Base struct {
 	Title string `json:"title"`
 	Rank  int32
 }
+
+// Audited embeds a struct that is to be skipped as a whole.
+type Audited struct {
+	Stamp `gomacro-data:"ignore"`
+	Count int
+}
+
+type Stamp struct {
+	By  string
+	Rev int
+}
